@@ -623,3 +623,136 @@ Proof.
       generalize (lenN pre) (lenN (pbytes (f, rv))) (lenN (flat_map pbytes (PE els))) (lenN (flat_map pbytes (P ns))). intros; lia.
 Qed.
 End Loops.
+
+(* ---------------------------------------------------------------- MessageBase::decode on a part with groups *)
+Section Part.
+Variable c : ctx.
+Variable from : list N.
+Variable fsize : N.
+
+(* decode_group for the count field just filed in m *)
+Lemma DG_step g outer m done T k f rv els tr ssg pre rp tail fuel :
+  Inv c g m done T -> ~ In f (map n_tag done) -> wf_meta outer g = true ->
+  find_trait (g_traits g) f = Some tr -> find_sub (g_subs g) f = Some ssg ->
+  wf_elems ssg els = true -> delems_ok c ssg els = true -> els <> [] ->
+  stream from fsize pre (PE els ++ rp) tail -> Forall pok rp -> head_in (tags g ++ outer) rp ->
+  (3 * length (PE els) + 3 <= fuel)%nat ->
+  exists objs ts,
+    decode_group c real_caps from fsize fuel (add_dec m (lenN done) (TN k f rv els)) f (lenN pre) =
+      Ok (attach (add_dec m (lenN done) (TN k f rv els)) f objs, lenN pre + lenN (flat_map pbytes (PE els))) /\
+    elts_trees c objs = Some ts /\ PE ts = PE els.
+Proof.
+  intros I Hnin Hwm Etr Esub Hwels Dels Hne Hst Hpok Hhead Hfuel.
+  destruct (wf_meta_parts _ _ Hwm) as (_ & _ & Hsubs). destruct (Hsubs f ssg Esub) as [Hdsg Hwsg].
+  assert (HDLn : DL c from fsize (length (PE els))) by (apply DL_of_DE; intros k0 _; apply DE_all).
+  destruct fuel as [|fuel0]; [lia|].
+  destruct (HDLn ssg (tags g ++ outer) els [] pre rp tail fuel0 (wf_elems_sizes els) Hwsg (disjN_spec _ _ Hdsg) Hwels Dels Hne
+              Hst Hpok Hhead ltac:(lia)) as (objs & ts & Hrun & Hts & HPE).
+  exists objs, ts. split; [|split; assumption].
+  rewrite dgG_S. unfold find_add_group. rewrite mb_subs_add_dec, (inv_subs _ _ _ _ _ I), Esub.
+  pose proof (inv_grp _ _ _ _ _ I f Hnin) as Hnone.
+  destruct (add_dec m (lenN done) (TN k f rv els)) as [fp1 subs1 fl1 pos1 gr1 unk1] eqn:Ead.
+  assert (Hg1 : gr1 = mb_groups m) by (rewrite <- (mb_groups_add_dec m (lenN done) (TN k f rv els)), Ead; reflexivity).
+  subst gr1. cbn [mb_groups with_groups]. rewrite map_find_insert_same by exact Hnone. cbv zeta.
+  rewrite Hrun. cbn [app]. unfold attach. cbn [mb_groups with_groups]. reflexivity.
+Qed.
+
+Lemma dec_loop_tree g outer gfuel : forall ns done m T pre tb fuel rp tail,
+  wf_meta outer g = true -> disj (tags g) outer ->
+  Forall (fun x => wf_node g x = true) ns -> dnodes_ok c true g ns = true ->
+  NoDup (map n_tag (done ++ ns)) -> Inv c g m done T ->
+  stream from fsize pre (P ns ++ rp) tail -> Forall pok rp -> head_in outer rp ->
+  lenN (done ++ ns) < 65536 -> (length ns < fuel)%nat -> (3 * length (P ns) + 3 <= gfuel)%nat ->
+  exists m' T',
+    dec_loop c real_caps from fsize false gfuel fuel m (lenN pre) (lenN done) None 0 tb =
+      dec_finish false m' (lenN pre + lenN (flat_map pbytes (P ns))) (lenN (done ++ ns)) None 0 /\
+    Inv c g m' (done ++ ns) T'.
+Proof.
+  induction ns as [|x ns IH]; intros done m T pre tb fuel rp tail Hwm Hdj Hwf Hd Hnd I Hst Hpok Hrp Hlen Hfuel Hgf.
+  - rewrite app_nil_r in *. cbn [flat_map app lenN] in *. rewrite N.add_0_r.
+    destruct fuel as [|fuel]; [lia|]. exists m, T. split; [|exact I]. cbn [dec_loop].
+    destruct Hst as [Hs1 Hs2]. replace (lenN pre <=? fsize) with true by (symmetry; apply N.leb_le; lia).
+    destruct rp as [|[f v] rp].
+    + rewrite (tok_end from fsize pre tail (conj Hs1 Hs2)). reflexivity.
+    + pose proof (Forall_inv Hpok) as Hp.
+      rewrite (tok_next from fsize pre (f, v) rp tail (conj Hs1 Hs2) Hp). cbn [fst snd].
+      destruct Hp as (_ & _ & _ & Hf). cbn [fst] in Hf. rewrite atoi_u16_itoa by assumption.
+      cbn [head_in] in Hrp.
+      assert (Hn : ~ In f (map n_tag done)).
+      { intros Hc. pose proof (inv_legal _ _ _ _ _ I f Hc) as Hl. destruct (find_trait (g_traits g) f) as [t|] eqn:E; [|congruence].
+        exact (Hdj f (proj1 (find_trait_In _ _ _ E)) Hrp). }
+      rewrite (Inv_find c g m done T f I Hn). rewrite find_trait_notin by (intros Hc; exact (Hdj f Hc Hrp)). reflexivity.
+  - destruct fuel as [|fuel]; [lia|].
+    pose proof (Forall_inv Hwf) as Hwx. pose proof (Forall_inv_tail Hwf) as Hwf'.
+    cbn [dnodes_ok forallb] in Hd. apply andb_prop in Hd. destruct Hd as [Hdx Hd'].
+    destruct x as [k f rv els]. rewrite wf_node_unfold in Hwx. rewrite dnode_ok_unfold in Hdx.
+    destruct (find_trait (g_traits g) f) as [tr|] eqn:Etr; [|discriminate].
+    apply andb_prop in Hwx. destruct Hwx as [_ Hgrp].
+    repeat (apply andb_prop in Hdx; let H := fresh "D" in destruct Hdx as [Hdx H]).
+    rename D into Dels, D0 into Dlen, D1 into Dflag, D2 into Dren, D3 into Dpok, D4 into Dbe, D5 into Dhp, D6 into Dsup.
+    apply list_eqb_eq in Dren. apply Bool.eqb_prop in Dflag. cbn [negb orb] in Dlen.
+    assert (Hnin : ~ In f (map n_tag done)).
+    { rewrite map_app in Hnd. cbn [map n_tag] in Hnd. apply NoDup_remove_2 in Hnd. intros Hc. apply Hnd. apply in_or_app. left. exact Hc. }
+    rewrite P_cons in Hst, Hgf |- *. cbn [npairs] in Hst, Hgf |- *. cbn [app] in Hst. rewrite <- app_assoc in Hst.
+    cbn [app length] in Hgf. rewrite app_length in Hgf.
+    pose proof Hst as [Hs1 Hs2].
+    pose proof (pokv_sound f rv Dpok) as Hp.
+    cbn [dec_loop]. replace (lenN pre <=? fsize) with true by (symmetry; apply N.leb_le; lia).
+    rewrite (tok_next from fsize pre (f, rv) _ tail Hst Hp). cbn [fst snd].
+    pose proof Hp as (_ & Hnul & _ & Hf). cbn [fst snd] in Hf, Hnul.
+    rewrite atoi_u16_itoa by assumption.
+    rewrite (Inv_find c g m done T f I Hnin), Etr.
+    destruct (t_present tr); [discriminate|]. destruct (t_suppress tr) eqn:Esup; [discriminate|].
+    destruct (find_be (c_fields c) f) as [ty|]; [|discriminate].
+    rewrite (cstr_no_nul rv Hnul).
+    assert (Hl1 : lenN done + 1 < 65536) by (rewrite lenN_app in Hlen; cbn [lenN] in Hlen; lia).
+    replace ((lenN done + 1) mod 4294967296) with (lenN done + 1) by (symmetry; apply N.mod_small; lia).
+    change (mark_present (add_field_decoder m f (lenN done + 1) rv) f) with (add_dec m (lenN done) (TN k f rv els)).
+    assert (Hstep : done ++ TN k f rv els :: ns = (done ++ [TN k f rv els]) ++ ns) by (rewrite <- app_assoc; reflexivity).
+    replace (lenN pre + lenN (pbytes (f, rv))) with (lenN (pre ++ pbytes (f, rv))) by apply lenN_app.
+    unfold opt_group. rewrite Dflag. rewrite Dlen.
+    destruct els as [|e0 els0].
+    + cbn [nonempty]. cbn [PE flat_map app] in *.
+      assert (Hg0 : (t_group tr && has_group_count_c c f rv) = false) by exact Dflag.
+      pose proof (Inv_plain c g m done T k f rv tr I Hnin Hl1 Etr Esup Hg0 Dren) as I1.
+      rewrite <- (lenN_snoc done (TN k f rv [])).
+      destruct (IH (done ++ [TN k f rv []]) _ _ (pre ++ pbytes (f, rv)) (tagbuf_after (itoa_N f) tb) fuel rp tail Hwm Hdj Hwf' Hd'
+                  ltac:(rewrite <- Hstep; exact Hnd) I1 (stream_step from fsize pre (f, rv) _ tail Hst) Hpok Hrp
+                  ltac:(rewrite <- Hstep; exact Hlen) ltac:(cbn [length] in Hfuel; lia) ltac:(lia)) as (m' & T' & Hrun & I').
+      exists m', T'. rewrite <- Hstep in *. split; [|exact I'].
+      rewrite Hrun. f_equal. cbn [flat_map]. rewrite !lenN_app. lia.
+    + cbn [nonempty].
+      destruct (t_group tr) eqn:Egrp; [|discriminate Dflag].
+      destruct (decimal rv) as [cnt|]; [|discriminate]. destruct (find_sub (g_subs g) f) as [ssg|] eqn:Esub; [|discriminate].
+      apply andb_prop in Hgrp. destruct Hgrp as [_ Hwels].
+      set (els := e0 :: els0) in *.
+      assert (Hhead : head_in (tags g ++ outer) (P ns ++ rp)).
+      { destruct ns as [|y ns'].
+        - cbn [flat_map app]. destruct rp as [|[f2 v2] rp2]; [exact Logic.I|]. cbn [head_in] in *. apply in_or_app. right. exact Hrp.
+        - pose proof (Forall_inv Hwf') as Hwy. destruct y as [ky fy rvy elsy]. rewrite P_cons. cbn [npairs app head_in].
+          apply in_or_app. left. rewrite wf_node_unfold in Hwy. destruct (find_trait (g_traits g) fy) as [ty'|] eqn:Ey; [|discriminate].
+          apply (find_trait_In _ _ _ Ey). }
+      assert (Hpok2 : Forall pok (P ns ++ rp)).
+      { apply Forall_app. split; [apply (dnodes_pok c _ true g ns (le_n _) Hd')|exact Hpok]. }
+      change (flat_map (fun e => flat_map npairs e) els) with (PE els) in *.
+      destruct (DG_step g outer m done T k f rv els tr ssg (pre ++ pbytes (f, rv)) (P ns ++ rp) tail gfuel I Hnin Hwm Etr Esub
+                  Hwels Dels ltac:(discriminate) (stream_step from fsize pre (f, rv) _ tail Hst) Hpok2 Hhead ltac:(lia))
+        as (objs & ts & Hg & Hts & HPE).
+      rewrite Hg.
+      assert (Hg1 : (t_group tr && has_group_count_c c f rv) = true) by (rewrite Egrp; exact Dflag).
+      pose proof (Inv_group c g m done T k f rv els tr objs ts I Hnin Hl1 Etr Esup Hg1 Dren Hts HPE) as I1.
+      assert (Hst2 : stream from fsize ((pre ++ pbytes (f, rv)) ++ flat_map pbytes (PE els)) (P ns ++ rp) tail).
+      { destruct (stream_step from fsize pre (f, rv) _ tail Hst) as [Ha Hb]. split.
+        - rewrite Ha, flat_map_app, <- !app_assoc. reflexivity.
+        - rewrite Hb, flat_map_app, !lenN_app. generalize (lenN pre) (lenN (pbytes (f, rv))) (lenN (flat_map pbytes (PE els))) (lenN (flat_map pbytes (P ns ++ rp))). intros; lia. }
+      replace (lenN (pre ++ pbytes (f, rv)) + lenN (flat_map pbytes (PE els))) with (lenN ((pre ++ pbytes (f, rv)) ++ flat_map pbytes (PE els))) by apply lenN_app.
+      rewrite <- (lenN_snoc done (TN k f rv els)).
+      destruct (IH (done ++ [TN k f rv els]) _ _ ((pre ++ pbytes (f, rv)) ++ flat_map pbytes (PE els)) (tagbuf_after (itoa_N f) tb) fuel rp tail Hwm Hdj Hwf' Hd'
+                  ltac:(rewrite <- Hstep; exact Hnd) I1 Hst2 Hpok Hrp
+                  ltac:(rewrite <- Hstep; exact Hlen) ltac:(cbn [length] in Hfuel; lia) ltac:(lia)) as (m' & T' & Hrun & I').
+      exists m', T'. rewrite <- Hstep in *. split; [|exact I'].
+      rewrite Hrun. f_equal.
+      change (((f, rv) :: PE els) ++ P ns) with ((f, rv) :: (PE els ++ P ns)). cbn [flat_map]. rewrite flat_map_app, !lenN_app.
+      generalize (lenN pre) (lenN (pbytes (f, rv))) (lenN (flat_map pbytes (PE els))) (lenN (flat_map pbytes (P ns))). intros; lia.
+Qed.
+End Part.
